@@ -511,6 +511,7 @@ partial def addElement (self el : Nat) (forward : Option Int := none) (ic : Bool
     throw .anotherChosen
   | some s => selected := s
   if selected.isEmpty then
+    if forward.isSome then throw .anotherChosen
     match ← duplicateParentInPath same.getLast! with
     | some dp =>
       let ls ← iterLeaves dp
@@ -528,7 +529,7 @@ partial def addElement (self el : Nat) (forward : Option Int := none) (ic : Bool
   | some f =>
     let n := same.length
     let idx : Int := if f < 0 then f + n else f
-    if idx < 0 || idx ≥ n then throw (.internal "IndexError")
+    if idx < 0 || idx ≥ n then throw .anotherChosen
     let s := same[idx.toNat]!
     if !selected.contains s then throw .anotherChosen
     if (← maxIsReached s) then throw .maxOccurs
